@@ -97,9 +97,9 @@ def ws2dwcvp(y, nodata, p, llas, robust, out, lopt):
                 gamma = w_temp / (w_temp + s * ((-1 * d_eigs) ** 2))
                 r_arr = y - y_temp
 
-                mad = np.median(
-                    np.abs(r_arr[r_weights != 0] - np.median(r_arr[r_weights != 0]))
-                )
+                # residuals of valid cells only: masked cells hold placeholders
+                r_sel = r_arr[(r_weights != 0) & (w != 0)]
+                mad = np.median(np.abs(r_sel - np.median(r_sel)))
                 u_arr = r_arr / (1.4826 * mad * np.sqrt(1 - gamma.sum() / n))
 
                 r_weights = (1 - (u_arr / 4.685) ** 2) ** 2
@@ -216,9 +216,9 @@ def _ws2dwcvp(y, w, p, llas, robust):
             gamma = w_temp / (w_temp + s * ((-1 * d_eigs) ** 2))
             r_arr = y - y_temp
 
-            mad = np.median(
-                np.abs(r_arr[r_weights != 0] - np.median(r_arr[r_weights != 0]))
-            )
+            # residuals of valid cells only: masked cells hold placeholders
+            r_sel = r_arr[(r_weights != 0) & (w != 0)]
+            mad = np.median(np.abs(r_sel - np.median(r_sel)))
             u_arr = r_arr / (1.4826 * mad * np.sqrt(1 - gamma.sum() / n))
 
             r_weights = (1 - (u_arr / 4.685) ** 2) ** 2
